@@ -137,6 +137,7 @@ def run(ctx):
     normalisation_table_searched_whole(ctx, "R08-e")
     newline_runs_have_one_producer(ctx, "R08-f")
     nested_snippets_are_formatted_in_unix_style(ctx, "R08-g")
+    buffer_has_only_pipeline_writers(ctx, "R08-h")
     # operand of the Auto detection at the only call site
     if f is not None:
         for c in f.calls():
@@ -444,3 +445,36 @@ def nested_snippets_are_formatted_in_unix_style(ctx, rid):
                                               "not a local copy with newline_style(Unix) set (the caller's configuration)"),
                         [c.loc()])
     r.floor(rid, len(fs), 1, "format_snippet calls in format_code_block")
+
+
+def buffer_has_only_pipeline_writers(ctx, rid):
+    """R08-h / R20-f: between the visitor and the emitter the text is touched by the three pipeline stages only"""
+    p, r = ctx.p, ctx.r
+    r.rule(rid, "FormatContext::format_file: once the visitor has produced the text, `visitor.buffer` is modified only by the "
+                "three stages of the pipeline — source_file::append_newline, formatting::format_lines, "
+                "newline_style::apply_newline_style. No other call receives a `&mut` that derives from the buffer. What the "
+                "emitters compare the buffer with (`original_text`) is recovered from the source map by its own route (no byte "
+                "order mark, line endings restored); a late edit of the buffer alone — putting a BOM back — makes every such "
+                "file differ from its original: `--backup` writes a `.bk` for a file it does not change, files mode rewrites it")
+    f = p.named("format_file", within="FormatContext")
+    if f is None:
+        r.undecidable(rid, "FormatContext::format_file not found")
+        return
+    STAGES = ("source_file::append_newline", "formatting::format_lines", "newline_style::apply_newline_style")
+    n = 0
+    for c in f.calls():
+        for a in c.args:
+            if a[0] == "k" or not f.locals[a[1][0]].startswith("&mut"):
+                continue
+            d = f.derived_from(a[1][0])
+            own = [e for e in a[1][1] if isinstance(e, list) and e[0] == "f" and e[4] == "buffer"]
+            if not own and not any(x[2] == "buffer" and x[0] and x[0].endswith("FmtVisitor") for x in d["fields"]):
+                continue
+            n += 1
+            ok = any(c.name.endswith(sg) for sg in STAGES)
+            r.instance(rid, "format_file: %s(&mut visitor.buffer)" % short(c.name), "ok" if ok else "violation", c.loc())
+            if not ok:
+                r.violation(rid, "format_file: %s modifies the formatted text outside the pipeline" % short(c.name),
+                            "`visitor.buffer` is handed mutably to %s: the emitted text is no longer what the three stages "
+                            "produced, while the original it is compared with is recovered unchanged" % short(c.name), [c.loc()])
+    r.floor(rid, n, 3, "mutable uses of visitor.buffer in format_file")
